@@ -37,15 +37,52 @@ def class_table(storage_cls):
     return out + [("not_a_known_class", None)]
 
 
+SEVERABLE = ["suit-install", "suit-payload-fetch", "suit-dependency-resolution", "suit-candidate-verification", "suit-text"]
+
+
 def obligations(tier):
     obs = [Ob("slot_tables_disjoint", "L", "l_layout", {}, 60, "both layouts: all pairs of slots are disjoint and each role occurs once (z3 over the live tables)", weight=1)]
     for soc in ("nrf54h20", "nrf9280"):
-        for sev in (0, 1):
-            obs.append(Ob(f"one_envelope_{soc}_severed{sev}", "E1", "h_boot", {"soc": soc, "n": 1, "severed": sev}, 1200, f"one envelope ({'with' if sev else 'without'} severed member + payload): base < 2^32, 9 classes, component-id position, seq uint32", weight=150))
+        # severed: 0 = nothing severed, k = k-th severable member severed and present, plus an integrated payload
+        sevs = range(6) if (soc == "nrf54h20" or tier == "thorough") else (0, 4)
+        for sev in sevs:
+            what = "without severed member / payload" if sev == 0 else f"with {SEVERABLE[sev - 1]} severed + integrated payload"
+            obs.append(Ob(f"one_envelope_{soc}_severed{sev}", "E1", "h_boot", {"soc": soc, "n": 1, "severed": sev}, 1200, f"one envelope ({what}): base < 2^32, 9 classes, component-id position, seq uint32", weight=150))
         for part in range(3):
             obs.append(Ob(f"two_envelopes_{soc}_part{part}", "E1", "h_boot", {"soc": soc, "n": 2, "part": part}, 1800, f"two envelopes, roles solver-chosen incl. duplicates and unknown class (first class in third #{part} of the table)", weight=200))
-    obs.append(Ob("rejections", "E1", "h_reject", {}, 900, "missing component id / oversize by one byte / absent input file / unknown SoC: error and nothing written", weight=100))
+        for cfg in range(len(CFG_CASES)):
+            obs.append(Ob(f"kconfig_roles_{soc}_cfg{cfg}", "E1", "h_boot", {"soc": soc, "n": 1, "severed": 0, "cfg": cfg}, 1200, f"role assignments from a build configuration file ({CFG_CASES[cfg][0]}): the envelope of each configured or default class (solver-chosen) lands in the slot of the role that the configuration, then the defaults, give it", weight=120))
+    obs.append(Ob("rejections", "E1", "h_reject", {}, 900, "next to a valid envelope of an earlier-written domain: missing component id / record one byte larger than the slot / absent input file; unknown SoC: error and nothing written; record exactly as large as the slot accepted", weight=100))
     return obs
+
+
+# build-configuration cases: role key in the file -> (vendor, class); "@ROLE" stands for the default class of that role
+CFG_CASES = [
+    ("two default classes exchange their roles", {"APP_LOCAL_1": ("nordicsemi.com", "@RAD_LOCAL_1"), "RAD_LOCAL_1": ("nordicsemi.com", "@APP_LOCAL_1")}),
+    ("custom vendor/class pairs for ROOT and APP_LOCAL_1", {"ROOT": ("acme.example", "my_root"), "APP_LOCAL_1": ("acme.example", "my_app")}),
+    ("a default class moved to another role", {"APP_LOCAL_1": ("nordicsemi.com", "@APP_ROOT")}),
+]
+
+
+def role_table(storage_cls, cfg=None):
+    """(vendor, class, role) for every pair an envelope may name: defaults overridden by the configuration (later assignment of the
+    same pair wins), plus an unknown class.  Returns (table, config file text or None)."""
+    pairs = {}
+    for en in storage_cls._CLASS_ROLE_ASSIGNMENTS:
+        pairs[(en["vendor_name"], en["class_name"])] = en["role"].name
+    text = None
+    if cfg is not None:
+        default_of = {r: c for (v, c), r in pairs.items() if v == "nordicsemi.com"}
+        lines = ["CONFIG_SOMETHING=y"]
+        for key, (vendor, cname) in CFG_CASES[cfg][1].items():
+            if cname.startswith("@"):
+                cname = default_of[cname[1:]]
+            lines.append(f'SB_CONFIG_SUIT_MPI_{key}_VENDOR_NAME="{vendor}"')
+            lines.append(f'SB_CONFIG_SUIT_MPI_{key}_CLASS_NAME="{cname}"')
+            pairs[(vendor, cname)] = "APP_ROOT" if key == "ROOT" else key
+        text = "\n".join(lines) + "\n"
+    table = [(v, c, r) for (v, c), r in pairs.items() if v in ("nordicsemi.com", "acme.example")]
+    return table + [("nordicsemi.com", "not_a_known_class", None)], text
 
 
 def l_layout():
@@ -94,20 +131,21 @@ def _env():
     return e, CI, IO
 
 
-def make_desc(L, name, class_name, with_cid=True, uri_len=None, severed=None):
+def make_desc(L, name, class_name, with_cid=True, uri_len=None, severed=None, vendor="nordicsemi.com"):
     man = {"suit-manifest-version": 1, "suit-manifest-sequence-number": L.uint(name + "_seq", 2**32 - 1)}
     if L.bool(name + "_common_first"):
         man["suit-common"] = {"suit-components": [["M", 2]]}
     if uri_len is not None:
         man["suit-reference-uri"] = "u" * uri_len
     if with_cid:
-        man["suit-manifest-component-id"] = ["INSTLD_MFST", {"RFC4122_UUID": {"namespace": "nordicsemi.com", "name": class_name}}]  # the form the storage format is defined for
+        man["suit-manifest-component-id"] = ["INSTLD_MFST", {"RFC4122_UUID": {"namespace": vendor, "name": class_name}}]  # the form the storage format is defined for
     man["suit-validate"] = [{"suit-condition-image-match": []}]
     env = {"suit-authentication-wrapper": {"SuitDigest": {"suit-digest-algorithm-id": "cose-alg-sha-256", "suit-digest-bytes": "00"}}, "suit-manifest": man}
     sev = L.bool(name + "_severed") if severed is None else bool(severed)
     if sev:
-        man["suit-install"] = {"suit-digest-algorithm-id": "cose-alg-sha-256", "suit-digest-bytes": "00"}
-        env["suit-install"] = [{"suit-directive-set-component-index": 1}]
+        m = SEVERABLE[(severed - 1) % len(SEVERABLE)] if isinstance(severed, int) and not isinstance(severed, bool) and severed > 0 else "suit-install"
+        man[m] = {"suit-digest-algorithm-id": "cose-alg-sha-256", "suit-digest-bytes": "00"}
+        env[m] = {"en": {"suit-text-manifest-description": "d"}} if m == "suit-text" else [{"suit-directive-set-component-index": 1}]
     if (L.bool(name + "_payload") if severed is None else bool(severed)):
         env["suit-integrated-payloads"] = {"#fw": "c0ffee"}
     return {"SUIT_Envelope_Tagged": env}
@@ -125,7 +163,7 @@ def expected_slot(e, cbormodel, in_bytes, base, entry):
     return stored
 
 
-def h_boot(soc="nrf54h20", n=1, severed=None, part=None, exclude=()):
+def h_boot(soc="nrf54h20", n=1, severed=None, part=None, cfg=None, exclude=()):
     e, CI, IO = _env()
     from props.c02 import SymLeaves
     from suit_generator.exceptions import GeneratorError, SUITError
@@ -134,7 +172,7 @@ def h_boot(soc="nrf54h20", n=1, severed=None, part=None, exclude=()):
     from vlib import cbormodel, chx, suitenv
 
     storage_cls = CI.EnvelopeStorageNrf54h20 if soc == "nrf54h20" else CI.EnvelopeStorageNrf9280
-    classes = class_table(storage_cls)
+    classes, cfg_text = role_table(storage_cls, cfg)
 
     def harness():
         suitenv.reset(e)
@@ -144,14 +182,16 @@ def h_boot(soc="nrf54h20", n=1, severed=None, part=None, exclude=()):
         inputs = []
         for i in range(n):
             table = classes if (part is None or i > 0) else classes[part * 3 : part * 3 + 3]
-            cname, role = chx.pick(f"class{i}", table)
-            d = make_desc(L if n == 1 else _Small(chx), f"e{i}", cname, severed=severed)
+            vendor, cname, role = chx.pick(f"class{i}", table)
+            d = make_desc(L if n == 1 else _Small(chx), f"e{i}", cname, severed=severed, vendor=vendor)
             b = InputOutputMixin.prepare_suit_data(d)
             e.fs.add(f"in{i}.suit", b)
-            inputs.append((cname, role, b))
+            inputs.append(((vendor, cname), role, b))
+        if cfg_text is not None:
+            e.fs.add("sb.config", cfg_text)
         raised = None
         try:
-            CI.ImageCreator.create_files_for_boot([f"in{i}.suit" for i in range(n)], "outdir", base, None, soc)
+            CI.ImageCreator.create_files_for_boot([f"in{i}.suit" for i in range(n)], "outdir", base, "sb.config" if cfg_text is not None else None, soc)
         except GeneratorError:
             raised = "GeneratorError"
         except SUITError:
@@ -190,8 +230,8 @@ def h_boot(soc="nrf54h20", n=1, severed=None, part=None, exclude=()):
                     if not ok:
                         break
                     off = slot_v[1]
-                    vid = e.proxy.uuid5(real_uuid.NAMESPACE_DNS, "nordicsemi.com")
-                    cid = e.proxy.uuid5(vid, cname)
+                    vid = e.proxy.uuid5(real_uuid.NAMESPACE_DNS, cname[0])
+                    cid = e.proxy.uuid5(vid, cname[1])
                     ok = ok and stored[off : off + 16] == cid.bytes and data[used:] == b"\xff" * (entry["size"] - used)
         return chx.conclude(ok, soc=soc, raised=raised)
 
@@ -226,8 +266,12 @@ def h_reject(exclude=()):
         else:
             d = make_desc(L, "e0", cname, with_cid=(mode != "no_cid"))
         e.fs.add("in0.suit", InputOutputMixin.prepare_suit_data(d))
+        # a valid envelope of a domain whose file is written earlier (secure) comes first: whatever is wrong with the other input,
+        # this one's file must not be left behind
+        e.fs.add("sec.suit", InputOutputMixin.prepare_suit_data(make_desc(_Fixed(), "s", "nRF54H20_nordic_top")))
+        files = ["sec.suit", "in0.suit"]
         if mode == "missing_file":
-            files = ["absent.suit"]
+            files = ["sec.suit", "absent.suit"]
         if mode == "unknown_soc":
             soc = "nrf5340"
         raised = None
@@ -237,7 +281,8 @@ def h_reject(exclude=()):
             raised = "error"
         writes = [w for w in e.stubs.HexRecorder.LOG if w[0] == "write"]
         if mode == "fits_exactly":
-            ok = raised is None and len(writes) == 1 and len(writes[0][2][0][1]) == 1024
+            app = [w for w in writes if "application" in w[1]]
+            ok = raised is None and len(writes) == 2 and len(app) == 1 and len(app[0][2][0][1]) == 1024
         else:
             ok = raised is not None and len(writes) == 0
         return chx.conclude(ok, mode=mode)
@@ -308,7 +353,9 @@ def replay(obligation, params, cex):
                 desc = make_desc(L, "e0", cname, with_cid=(mode != "no_cid"))
             f = os.path.join(d, "in0.suit")
             open(f, "wb").write(InputOutputMixin.prepare_suit_data(desc))
-            files = [os.path.join(d, "absent.suit")] if mode == "missing_file" else [f]
+            fsec = os.path.join(d, "sec.suit")
+            open(fsec, "wb").write(InputOutputMixin.prepare_suit_data(make_desc(_Fixed(), "s", "nRF54H20_nordic_top")))
+            files = [fsec, os.path.join(d, "absent.suit")] if mode == "missing_file" else [fsec, f]
             try:
                 CI.ImageCreator.create_files_for_boot(files, out, base, None, soc)
                 raised = None
@@ -318,16 +365,21 @@ def replay(obligation, params, cex):
                 return dict(reproduced=True, detail=f"{mode}: raises {type(ex).__name__}: {ex}")
             left = os.listdir(out)
             if mode == "fits_exactly":
-                return dict(reproduced=raised is not None or len(left) != 1, detail=f"envelope exactly as large as its slot: raised={raised}, files={left}")
+                return dict(reproduced=raised is not None or len(left) != 2, detail=f"record exactly as large as its slot (next to a valid secure-domain envelope): raised={raised}, files={left}")
             return dict(reproduced=raised is None or bool(left), detail=f"{mode}: raised={raised}, files left={left}")
         soc, n = params.get("soc", "nrf54h20"), params.get("n", 1)
         storage_cls = CI.EnvelopeStorageNrf54h20 if soc == "nrf54h20" else CI.EnvelopeStorageNrf9280
         inputs = []
         files = []
+        table, cfg_text = role_table(storage_cls, params.get("cfg"))
+        cfg_file = None
+        if cfg_text is not None:
+            cfg_file = os.path.join(d, "sb.config")
+            open(cfg_file, "w").write(cfg_text)
         for i in range(n):
-            cname, role = L.sel(f"class{i}", class_table(storage_cls))
+            vendor, cname, role = L.sel(f"class{i}", table)
             if n == 1:
-                desc = make_desc(L, f"e{i}", cname, severed=params.get("severed"))
+                desc = make_desc(L, f"e{i}", cname, severed=params.get("severed"), vendor=vendor)
             else:
                 class _RS:
                     def uint(self_, name, hi=None):
@@ -336,17 +388,17 @@ def replay(obligation, params, cex):
                     def bool(self_, name):
                         return name.endswith("_common_first")
 
-                desc = make_desc(_RS(), f"e{i}", cname)
+                desc = make_desc(_RS(), f"e{i}", cname, vendor=vendor)
             b = InputOutputMixin.prepare_suit_data(desc)
             f = os.path.join(d, f"in{i}.suit")
             open(f, "wb").write(b)
             files.append(f)
-            inputs.append((cname, role, b))
+            inputs.append(((vendor, cname), role, b))
         roles = [r for _, r, _ in inputs]
         layout_roles = [en["role"].name for en in storage_cls._LAYOUT]
         bad_input = any(r is None or r not in layout_roles for r in roles) or len(set(roles)) != len(roles)
         try:
-            CI.ImageCreator.create_files_for_boot(files, out, base, None, soc)
+            CI.ImageCreator.create_files_for_boot(files, out, base, cfg_file, soc)
             raised = None
         except (GeneratorError, SUITError) as ex:
             raised = type(ex).__name__
@@ -377,7 +429,7 @@ def replay(obligation, params, cex):
                 used = dec.fp.tell()
                 v = cbor2.loads(b)
                 stored = cbor2.dumps(cbor2.CBORTag(107, {k: x for k, x in v.value.items() if k in (2, 3)}))
-                cid = real_uuid.uuid5(real_uuid.uuid5(real_uuid.NAMESPACE_DNS, "nordicsemi.com"), cname).bytes
+                cid = real_uuid.uuid5(real_uuid.uuid5(real_uuid.NAMESPACE_DNS, cname[0]), cname[1]).bytes
                 if list(slot.keys()) != [0, 1, 2] or slot[0] != 1 or slot[2] != stored:
                     return dict(reproduced=True, detail=f"{role}: slot record is not {{0:1, 1:off, 2:input stripped of severables/payloads}}")
                 if slot[2][slot[1] : slot[1] + 16] != cid:
